@@ -27,6 +27,7 @@ ROUNDTRIP_EXPRS = [
     "Conditional(Gt(2, 1), a, b)", "Conditional(Lt(2, 1), a, b)", "Abs(a - 2)", "abs(-a)", "Mod(a, 0.75)", "Mod(-a, 2) * b", "floor(a * 3)", "ContinuousConditional(Gt(a, 1), b, c, 0.5)",
     "ContinuousConditional(Le(a, b), 1, 0, 2.0)", "a * 1e-12", "a * 1.5e300 * 1e-300", "a + 123456789012345678901234567890 * 1e-30", "-a", "-(a + b)", "a - -b", "-2.5 * a", "a / -b",
     "log(a) + ln(b)", "tan(a / 4) + atan(b)", "asin(a / 2) + acos(b / 2)", "sin(pi * a) * cos(b)", "exp(-(a + 80) / 6.8)", "a * b - c / a + a ** 2", "(a - b) / (a + b)", "a ** b", "2 ** a",
+    "Conditional(Or(Lt(a, -0.375), Ge(a, -0.375)), b, c)", "Conditional(Or(Lt(a, -0.375), Gt(b, 5), Ge(a, -0.375), Eq(a, t)), b, a) * 2 + c", "Conditional(And(Lt(a, -0.375), Ge(a, -0.375)), b, c) - a",
     "tan(acos(sin(1)))", "tan(acos(a / 4)) + tan(asin(b / 2))", "1 / cos(asin(a / 2)) + 1 / sin(acos(b / 2))", "log(abs(exp(sin(log(c - a / 4)))) + 0.5)", "log(abs(exp(asin(a / 2))) + 0.5)", "abs(a ** b) + abs(exp(atan(a)))",
     "Conditional(Ge(a, -0.25), a, -a)", "Conditional(Le(-1.5, a), a, b) * 2", "0.1 + 0.2 * a", "a * 0.30000000000000004", "a * 1e22", "t * a + time", "Conditional(Gt(t, 1), a, b)",
 ]
